@@ -13,7 +13,7 @@ import (
 
 func init() {
 	register("C12", propMeta{
-		Explanation: "Decides the structure store creation/removal relies on: (R1) common.NewBtree logs the createStore step before StoreRepository.Add, marks the backend as created (created=true) only on the success edge of that Add, and every other construction passes false; the live rollback removes exactly the backends marked created, under committedState >= createStore; (R2) remove-only-what-you-created: every StoreRepository.Remove call in package common is one of the three justified sites - the live rollback (guarded by the created flag), the replay of a dead transaction's createStore log record, and NewBtree's cleanup after a failed Add, which must be conditioned on a re-read of the store showing that nothing readable exists or that the store found carries this transaction's pre-assigned root node id (never unconditional: the Add also fails when a concurrent creator won); (R3) in fs.StoreRepository.Add and Remove the whole read-modify-write of the store list (GetAll, the duplicate-name test, the list write) happens after the store-list lock was acquired and the lock is released by a deferred Unlock; Add rejects a name already in the list before writing anything; (R4) removing a store reaches the recursive folder removal and drops the name from the list: infs.RemoveBtree reaches fs.StoreRepository.Remove, which calls removeStore for every name, evicts the cached StoreInfo and rewrites the list.",
+		Explanation: "Decides the structure store creation/removal relies on: (R1) common.NewBtree logs the createStore step before StoreRepository.Add, marks the backend as created (created=true) only on the success edge of that Add, and every other construction passes false; the live rollback removes exactly the backends marked created, under committedState >= createStore; (R2) remove-only-what-you-created: every StoreRepository.Remove call in package common is one of the three justified sites - the live rollback (guarded by the created flag), the replay of a dead transaction's createStore log record, and NewBtree's cleanup after a failed Add, which must be conditioned on a re-read of the store showing that nothing readable exists or that the store found carries this transaction's pre-assigned root node id (never unconditional: the Add also fails when a concurrent creator won); (R3) in fs.StoreRepository.Add and Remove the whole read-modify-write of the store list (GetAll, the duplicate-name test, the list write) happens after the store-list lock was acquired and the lock is released by a deferred Unlock; Add rejects a name already in the list before writing anything; (R4) removing a store reaches the recursive folder removal and drops the name from the list: infs.RemoveBtree reaches fs.StoreRepository.Remove, which calls removeStore for every name, evicts the cached StoreInfo and rewrites the list. R1 also requires that nothing but committedState comparisons, the created flag and the loop over the backends gates the removal of created stores in the live rollback.",
 		DoesNotCover: "That a recreated store starts empty with the new options (runtime contents), concurrent creation across processes with a failing lock service, and the Cassandra StoreRepository sibling are not decided.",
 	}, runC12)
 }
@@ -104,6 +104,56 @@ func runC12(c *Ctx) {
 		}
 	}
 	c.Check(okRB, r1, "rollback: removes exactly the stores this transaction created", fr.Decl.Pos(), "StoreRepository.Remove only under committedState >= createStore and backend.created", "the live rollback can remove a store this transaction did not create, or never removes the one it created", nil)
+	// ... and under nothing else: every condition that gates the removal is a committedState comparison,
+	// the created test, or the loop over the backends
+	for _, rn := range gr.Find(rm) {
+		var extra []string
+		var at *GNode
+		for _, cn := range gr.Nodes {
+			if !cn.IsCond || cn.Ast == nil || cn.RangeHead != nil {
+				continue
+			}
+			gates := false
+			for _, br := range []int{1, 2} {
+				if len(gr.ReachableWithout(edgeCut([]*GNode{cn}, br), func(n *GNode) bool { return n == rn })) == 0 {
+					gates = true
+				}
+			}
+			if !gates {
+				continue
+			}
+			e, _ := cn.Ast.(ast.Expr)
+			okCond := false
+			if e != nil {
+				ast.Inspect(e, func(x ast.Node) bool {
+					if sx, ok := x.(ast.Expr); ok {
+						if fv := fieldOfSelector(infoR, sx); fv == state || fv == created {
+							okCond = true
+						}
+					}
+					return true
+				})
+				if _, isIdx := e.(*ast.BinaryExpr); !okCond && isIdx {
+					// the counted-loop form `i < len(t.btreesBackend)`
+					if be := e.(*ast.BinaryExpr); be.Op == token.LSS {
+						okCond = true
+					}
+				}
+			}
+			if !okCond && e != nil {
+				extra = append(extra, types.ExprString(e))
+				if at == nil {
+					at = cn
+				}
+			}
+		}
+		pos := rn.Ast.Pos()
+		if at != nil {
+			pos = at.Ast.Pos()
+		}
+		c.Check(len(extra) == 0, r1, "rollback: nothing but the commit state and the created flag gates the removal of created stores", pos, "gating conditions are committedState comparisons and backend.created",
+			fmt.Sprintf("the removal of the stores this transaction created additionally depends on `%s`: a rollback in which that does not hold (the in-loop rollback rewinds committedState and drops the createStore log record) leaves the created store behind with nothing left to remove it", strings.Join(extra, "`, `")), nil)
+	}
 
 	r2 := c.Rule("R2", "every StoreRepository.Remove in package common is one of the three justified sites", 3)
 	{
